@@ -131,6 +131,7 @@ type FV struct {
 	I    int
 	Y, M int
 	D    int
+	Z    bool // T: Go's zero time.Time
 }
 
 func (v FV) wire(name string) string {
@@ -140,7 +141,11 @@ func (v FV) wire(name string) string {
 	case 'D':
 		return fmt.Sprintf("%s:D:%d-%d-%d", name, v.Y, v.M, v.D)
 	case 'T':
-		return fmt.Sprintf("%s:T:%d-%d", name, v.Y, v.M)
+		z := 0
+		if v.Z {
+			z = 1
+		}
+		return fmt.Sprintf("%s:T:%d-%d-%d", name, v.Y, v.M, z)
 	}
 	return fmt.Sprintf("%s:S:%s", name, hx(v.S))
 }
@@ -165,7 +170,11 @@ func setField(rec any, name string, v FV) {
 	case 'D':
 		f.Set(reflect.ValueOf(mkDate(v.Y, v.M, v.D)))
 	case 'T':
-		f.Set(reflect.ValueOf(mkHM(v.Y, v.M)))
+		if v.Z {
+			f.Set(reflect.ValueOf(time.Time{}))
+		} else {
+			f.Set(reflect.ValueOf(mkHM(v.Y, v.M)))
+		}
 	default:
 		if f.Kind() == reflect.Slice {
 			f.SetBytes(append([]byte{}, v.S...))
@@ -185,7 +194,7 @@ func getField(rec any, name string, kind byte) FV {
 		return FV{K: 'D', Y: t.Year(), M: int(t.Month()), D: t.Day()}
 	case 'T':
 		t := f.Interface().(time.Time)
-		return FV{K: 'T', Y: t.Hour(), M: t.Minute()}
+		return FV{K: 'T', Y: t.Hour(), M: t.Minute(), Z: t.IsZero()}
 	}
 	if f.Kind() == reflect.Slice {
 		return FV{K: 'S', S: f.Bytes()}
